@@ -20,22 +20,29 @@ structure Bin where
   insts : List Inst
   deriving Inhabited
 
-/-- Physical layout: magic, version, generator, bound, schema, then (wordCount<<16 | opcode) … -/
+/-- Instruction stream: (wordCount<<16 | opcode) followed by wordCount−1 operand words. -/
+def decodeInsts : Nat → List Nat → List Inst → Option (List Inst)
+  | _, [], acc => some acc.reverse
+  | 0, _ :: _, _ => none
+  | fuel + 1, w :: tl, acc =>
+    let wc := w / 65536
+    let op := w % 65536
+    if wc = 0 ∨ tl.length < wc - 1 then none
+    else decodeInsts fuel (tl.drop (wc - 1)) ({ op := op, ws := (tl.take (wc - 1)).toArray } :: acc)
+
+/-- Physical layout (spec §2.3): magic, version, generator, bound, schema, then the instructions. -/
 def decode (ws : List Nat) : Option Bin :=
   match ws with
   | magic :: ver :: _gen :: bound :: _schema :: rest =>
     if magic ≠ 0x07230203 then none else
-    let rec go (fuel : Nat) (ws : List Nat) (acc : List Inst) : Option (List Inst) :=
-      match fuel, ws with
-      | _, [] => some acc.reverse
-      | 0, _ => none
-      | fuel + 1, w :: tl =>
-        let wc := w / 65536
-        let op := w % 65536
-        if wc = 0 ∨ tl.length < wc - 1 then none
-        else go fuel (tl.drop (wc - 1)) ({ op := op, ws := (tl.take (wc - 1)).toArray } :: acc)
-    (go ws.length rest []).map (fun is => { version := ver, bound := bound, insts := is })
+    (decodeInsts rest.length rest []).map (fun is => { version := ver, bound := bound, insts := is })
   | _ => none
+
+/-- The encoder side of the physical layout (what `ModuleBuilder.Build` / `Instruction.Encode` do). -/
+def encodeInst (i : Inst) : List Nat := ((i.ws.size + 1) * 65536 + i.op) :: i.ws.toList
+
+def encode (version generator bound : Nat) (is : List Inst) : List Nat :=
+  0x07230203 :: version :: generator :: bound :: 0 :: is.flatMap encodeInst
 
 inductive Ty where
   | void | bool
@@ -49,7 +56,7 @@ inductive Ty where
   | pointer (sc : Nat) (pointee : Nat)
   | function
   | other
-  deriving Repr, Inhabited
+  deriving Repr, Inhabited, BEq
 
 structure Block where
   label : Nat
